@@ -106,6 +106,21 @@ Theorem DT_extract_slices : forall s src out, wf C s -> det (it_of C s) = false 
 Proof. intros s src out H A. split; [exact (tie_copy_slice s src out H A) | exact (tie_clone_slice s src out H A)]. Qed.
 Print Assumptions DT_extract_slices.
 
+(** [wait_for], the one busy-waiting call: every round is one fresh look; nothing is published, no cell is touched; it returns in the
+    first round in which enough items are there (fuel = number of rounds granted to the loop) *)
+Theorem DT_wait_for : forall k s src out fuel count, wf k s ->
+  drun (d_wait_for (denv_of k s src) fuel count) (view k s out) =
+  Some (match fuel with 0 => None | S _ => if count <=? fresh k s then Some tt else None end,
+        match fuel with 0 => view k s out | S _ => view k (fst (refresh k s)) out end).
+Proof. intros k s src out fuel count H. exact (tie_wait_for k s src out H fuel count). Qed.
+Print Assumptions DT_wait_for.
+
+(** the [Detached] wrapper and the [AsyncIterator] trait only pass [available], [wait_for], [index], [buf_len], [get_workable*]
+    (resp. [index], [available], [advance]) on to the wrapped iterator - a [delegate!] line or an equivalent hand-written body *)
+Theorem DT_pass_through : forallb (fun x => snd x) DataFns.pass_through = true.
+Proof. exact pass_through_closed. Qed.
+Print Assumptions DT_pass_through.
+
 (** non-vacuity: a concrete state satisfies [wf] (so the theorems above apply to it); [usize_max = 2^64] is never evaluated *)
 Lemma small_lt_usize_max : forall n, n <= 1000 -> n + n < usize_max.
 Proof.
